@@ -4,10 +4,13 @@
 package main
 
 import (
+	"encoding/hex"
 	"encoding/json"
 	"flag"
 	"fmt"
 	"sort"
+
+	"github.com/btcsuite/btcwallet/wtxmgr"
 
 	"verifharness/internal/core"
 	"verifharness/internal/gen"
@@ -32,6 +35,10 @@ type input struct {
 	ListQ     [][2]int64 `json:"listq,omitempty"`      // ListUnspent(minconf, maxconf) calls
 	ZeroValue bool       `json:"zero_value,omitempty"` // the universe has zero-value outputs (outside wf_universe: ledger oracle and model only)
 	BKind     string     `json:"bkind,omitempty"`      // C02: how history B was built (direct | shuffled | perturbed)
+
+	// C12 (lease layer, txsim/lease.go)
+	LockIDs     []string `json:"lockids,omitempty"`      // hex of the 32-byte identifier standing for model lock id 1, 2, ...
+	WalletLease bool     `json:"wallet_lease,omitempty"` // lease / release / list through Wallet.LeaseOutput / ReleaseOutput / ListLeasedOutputs
 }
 
 type caseOut struct {
@@ -66,16 +73,45 @@ func blockIDs(evs ...[]txsim.Event) txsim.BlockIDs {
 	return m
 }
 
+// leaseKinds are the violation kinds of the lease layer stated directly on
+// what was observed (filled by runHistory when the case opts in).
+var leaseKinds []string
+
+func addLeaseKind(k string) {
+	for _, x := range leaseKinds {
+		if x == k {
+			return
+		}
+	}
+	leaseKinds = append(leaseKinds, k)
+}
+
 func runHistory(u *txsim.Universe, in input, evs []txsim.Event, everyStep bool) ([]txsim.Obs, error) {
 	newDriver := txsim.NewDriver
 	if in.Queries {
 		newDriver = txsim.NewWalletDriver
+	}
+	if in.WalletLease {
+		newDriver = txsim.NewLeaseWalletDriver
 	}
 	d, err := newDriver(u)
 	if err != nil {
 		return nil, err
 	}
 	defer d.Close()
+	if len(in.LockIDs) > 0 {
+		d.LockIDs = map[int64]wtxmgr.LockID{}
+		for i, h := range in.LockIDs {
+			b, err := hex.DecodeString(h)
+			if err != nil || len(b) != 32 {
+				return nil, fmt.Errorf("lockids[%d] is not 32 hex bytes", i)
+			}
+			var l wtxmgr.LockID
+			copy(l[:], b)
+			d.LockIDs[int64(i+1)] = l
+		}
+	}
+	var lastLocked string
 	f := txsim.NewFacts()
 	opts := txsim.ObserveOpts{MinConfs: in.MinConfs, SyncOffs: in.SyncOffs, Details: in.Details, Ranges: in.Details,
 		Blocks: blockIDs(in.Events, in.EventsB)}
@@ -109,6 +145,18 @@ func runHistory(u *txsim.Universe, in input, evs []txsim.Event, everyStep bool) 
 				o.Out.Err = so.Err
 			}
 			o.Out.Lock, o.Out.Expiry, o.Out.Refused = so.Lock, so.Expiry, so.Refused
+			if d.WalletAPI && o.WLeased != nil && !txsim.WalletLeaseListOK(u, f, &o) {
+				addLeaseKind("wallet_lease_list_differs_from_store_list")
+			}
+			if e.K == "restart" || reopen[i] {
+				// "leases survive restart": the list after the restart is the list before it
+				if now, _ := json.Marshal(o.Locked); everyStep && i > 0 && string(now) != lastLocked {
+					addLeaseKind("lease_list_changed_by_restart")
+				}
+			}
+			if b, err := json.Marshal(o.Locked); err == nil {
+				lastLocked = string(b)
+			}
 			out = append(out, o)
 		}
 	}
@@ -172,11 +220,19 @@ func main() {
 				}
 			}
 			co := caseOut{In: in, Tags: tags, Oracle: []string{}}
+			leaseKinds = nil
 			obs, err := runHistory(u, in, in.Events, true)
 			if err != nil {
 				return err
 			}
 			co.Obs = obs
+			co.Oracle = append(co.Oracle, leaseKinds...)
+			for i, e := range in.Events {
+				if e.K == "restart" && i < len(obs) && len(obs[i].Locked) > 0 {
+					co.Tags = append(co.Tags, "restart_with_live_lease")
+					break
+				}
+			}
 			if in.Wallet {
 				w, err := txsim.RunWallet(in.Universe, in.Events, in.WSeed, in.MinConfs, in.ListQ,
 					txsim.ObserveOpts{MinConfs: in.MinConfs, SyncOffs: in.SyncOffs, Details: in.Details,
@@ -242,7 +298,8 @@ func main() {
 		for i := 0; i < c.N; i++ {
 			r := gen.New(c.Seed, int64(1000+i))
 			s := txsim.NewSim(r)
-			cfg := txsim.GenConfig{MaxTxs: r.Range(3, maxTx), MaxEvents: r.Range(8, maxEv), Leases: mode == "c12" || (mode == "c01" && r.Chance(1, 3))}
+			cfg := txsim.GenConfig{MaxTxs: r.Range(3, maxTx), MaxEvents: r.Range(8, maxEv), Leases: mode == "c12" || (mode == "c01" && r.Chance(1, 3)),
+				Restarts: mode == "c12"}
 			wide := mode == "c01" || mode == "c02"
 			if wide {
 				// reconnection of detached blocks, reorganisations up to 10
@@ -314,8 +371,19 @@ func main() {
 				in.Wallet, in.WSeed = true, int64(r.Intn(1<<30))
 				in.ListQ = [][2]int64{{0, 9999999}, {1, 9999999}, {0, 0}, {2, 99}, {100, 150}}
 			}
-			if mode == "c12" && r.Chance(1, 2) && len(in.Events) > 2 {
-				in.Reopen = []int{r.Range(0, len(in.Events)-1)}
+			if mode == "c12" {
+				// full-width identifiers (prefix / suffix / one-byte relatives),
+				// a third of the cases through the wallet-level API
+				ids, idTags := txsim.LockIDSet(r, 3)
+				for i := int64(1); i <= 3; i++ {
+					l := ids[i]
+					in.LockIDs = append(in.LockIDs, hex.EncodeToString(l[:]))
+				}
+				extraTags = append(extraTags, idTags...)
+				if r.Chance(1, 3) {
+					in.WalletLease = true
+					extraTags = append(extraTags, "wallet_lease_api")
+				}
 			}
 			var tags []string
 			for k, v := range s.Tags {
